@@ -196,14 +196,22 @@ def rep_invariant(o) -> tuple[bool, str]:
 # program generation with a shadow (pure data + numpy; the library is not executed)
 
 
+BATCH = 64           # utils.inv / adjugate / det switch to closed formulas at this many matrices
+COND_MAX_BATCH = 100.0
+
+
 def cond_ok(m: np.ndarray) -> bool:
-    if not np.all(np.isfinite(m)) or np.max(np.abs(m)) > ENTRY_MAX or np.max(np.abs(m)) < 1.0 / ENTRY_MAX:
+    if not np.all(np.isfinite(m)) or np.max(np.abs(m)) > ENTRY_MAX or np.max(np.abs(m)) < 0.05:
         return False
     try:
         c = np.linalg.cond(m)
     except np.linalg.LinAlgError:
         return False
-    return bool(np.all(c <= COND_MAX))
+    # the adjugate/det inverse used for >= 64 matrices is far less accurate than LU (about eps*cond^2.5 observed:
+    # a 70-matrix collection with cond 5e3 left a projective defect of 1.5e-12 on the clean tree), so large
+    # collections only contain well-conditioned matrices
+    big = m.ndim >= 3 and int(np.prod(m.shape[:-2])) >= BATCH
+    return bool(np.all(c <= (COND_MAX_BATCH if big else COND_MAX)))
 
 
 def make_cfg(rng) -> dict:
@@ -240,12 +248,12 @@ class Gen:
         self.recipes.append(r)
         return s
 
-    def inv_matrix(self, n):
+    def inv_matrix(self, n, cmax=COND_MAX):
         rng = self.rng
-        for _ in range(200):
+        for _ in range(400):
             m = [[rng.randint(-3, 3) for _ in range(n)] for _ in range(n)]
             d = program._det(m)
-            if 1 <= abs(d) <= 6 and cond_ok(np.array(m, float)):
+            if 1 <= abs(d) <= 6 and cond_ok(np.array(m, float)) and np.linalg.cond(np.array(m, float)) <= cmax:
                 return m
         return [[1 if i == j else 0 for j in range(n)] for i in range(n)]
 
@@ -284,7 +292,13 @@ class Gen:
                 self.T[s] = {"m": np.array(m, float), "fshape": ()}
             elif c < 0.55 or d == 1:
                 m = self.inv_matrix(n)
-                s = self.add_recipe("transf", [m], {"dt": rng.choice(["f", "i"])})
+                k_ = rng.choice([1, 1, 1, -1, 2, 0.5])   # the same transformation, another representative of MODERATE
+                # scale: with a factor 1000 the inverse has entries ~1e-4, images of 3D polygons get coordinates whose
+                # triple products fall below the library's absolute tolerance 1e-8 and join() raises -- representative
+                # independence is C03's subject, not a group law
+                if k_ != 1:
+                    m = [[x * k_ for x in row] for row in m]
+                s = self.add_recipe("transf", [m], {"dt": "f" if k_ == 0.5 else rng.choice(["f", "i"])})
                 self.T[s] = {"m": np.array(m, float), "fshape": ()}
             elif c < 0.7:
                 v = [rng.randint(-3, 3) for _ in range(d)]
@@ -317,13 +331,23 @@ class Gen:
         # a collection of transformations on both sides of the batch threshold of utils.inv
         if d >= 1 and rng.random() < 0.7:
             k = rng.choice([64, 65, 64, 70]) if cfg["big_coll"] else rng.choice([1, 2, 3, 5])
-            ms = [self.inv_matrix(n) for _ in range(min(k, 6))]
+            ms = [self.inv_matrix(n, 30.0 if k >= BATCH else COND_MAX) for _ in range(min(k, 6))]
             ms = [ms[i % len(ms)] for i in range(k)]
             s = self.add_recipe("transfcoll", [ms], {"dt": rng.choice(["f", "i", "i"])})
             self.T[s] = {"m": np.array(ms, float), "fshape": (k,)}
             self.kcoll = k
         else:
             self.kcoll = None
+        if rng.random() < 0.2:
+            ms = [[self.inv_matrix(n) for _ in range(2)] for _ in range(2)]
+            s = self.add_recipe("transfcoll", [ms], {"dt": rng.choice(["f", "i"])})
+            self.T[s] = {"m": np.array(ms, float), "fshape": (2, 2)}
+        singles = sorted(t for t, v in self.T.items() if v["fshape"] == ())
+        if len(singles) >= 2 and rng.random() < 0.4:
+            a_, b_ = rng.sample(singles, 2)
+            if all(r["k"] == "transf" for r in self.recipes if r["slot"] in (a_, b_)):
+                s = self.add_recipe("transfstack", [[a_, b_]])
+                self.T[s] = {"m": np.stack([self.T[a_]["m"], self.T[b_]["m"]]), "fshape": (2,)}
         # objects of every transformable kind
         pg = program.PoolGen(rng, dict(cfg, main_dim=max(d, 2), big_coll=False))
         if d == 1:
@@ -396,7 +420,8 @@ class Gen:
         m = pg.sym(n)
         for i in range(n):
             m[i][i] = m[i][i] or 1
-        obj("quadric", (), "conic" if d == 2 else "quadric", [m], {"dual": rng.random() < 0.3})
+        obj("quadric", (), "conic" if d == 2 else "quadric", [m], {"dual": rng.random() < 0.3,
+                                                                     "dt": rng.choice(["f", "i"])})
         if d == 2:
             obj("quadric", (), "circle", [G[0], rng.choice([1, 2])])
         else:
@@ -474,6 +499,11 @@ class Gen:
             return False
         if self.X[x].get("far"):
             return bool(np.all(np.linalg.cond(m) <= 100.0))
+        # objects with two tensor indices (quadrics; lines and cached segment lines in 3D) are acted on by the
+        # inverse twice: the float discrepancy of a round trip grows like eps*cond^3 (a sphere under a chain with
+        # cond 6.5e3 left a projective defect of 4.9e-10 on the clean tree), so they get a tighter bound
+        if self.X[x]["kind"] == "quadric" or (self.cfg["main_dim"] == 3 and self.X[x]["kind"] in ("line", "segment")):
+            return bool(np.all(np.linalg.cond(m) <= 300.0))
         return True
 
     def t_ok_x(self, ft, x) -> bool:
@@ -557,6 +587,19 @@ class Gen:
                 u = self.slot()
                 self.T[u] = {"m": m, "fshape": self.T[t]["fshape"]}
                 return {"i": i, "op": "pow", "t": t, "k": k, "to": u}
+        colls = sorted(t for t, v in self.T.items() if len(v["fshape"]) == 1 and v["fshape"][0] >= 1)
+        if colls and rng.random() < 0.5:
+            t = rng.choice(colls)
+            k = self.T[t]["fshape"][0]
+            u = self.slot()
+            if rng.random() < 0.6:
+                idx = rng.randrange(-k, k)
+                self.T[u] = {"m": self.T[t]["m"][idx], "fshape": ()}
+                return {"i": i, "op": "t_getitem", "t": t, "idx": idx, "to": u}
+            a_ = rng.randrange(0, k)
+            b_ = rng.randrange(a_, k) + 1
+            self.T[u] = {"m": self.T[t]["m"][a_:b_], "fshape": (b_ - a_,)}
+            return {"i": i, "op": "t_getitem", "t": t, "idx": {"s": [a_, b_, None]}, "to": u}
         d = self.cfg["main_dim"]
         shape = rng.choice([None, None, [2], [self.kcoll] if self.kcoll else None])
         u = self.slot()
@@ -651,6 +694,7 @@ def run_case(case: dict, stats: dict) -> tuple[dict | None, list[dict]]:
         h = {"i": st["i"], "op": op, "status": "ok"}
         hist.append(h)
         need = [st[k] for k in ("s", "t", "x") if k in st]
+        stats["ops"][op] = stats["ops"].get(op, 0) + 1
         if any(s not in S for s in need):
             h["status"] = "skipped"
             continue
@@ -705,6 +749,13 @@ def run_case(case: dict, stats: dict) -> tuple[dict | None, list[dict]]:
             elif not isinstance(u, str):
                 v = mk_violation(st, "L5-same-kind", "transf", f"t**{st['k']} gave {type(u).__name__}: "
                                  f"{u if isinstance(u, BaseException) else getattr(u, 'shape', '')} for t of shape {S[st['t']].shape}")
+        elif op == "t_getitem":
+            u = _call(ctx, stats, lambda: S[st["t"]][W.decode_index(st["idx"])])
+            if isinstance(u, Tensor) and W.meta(u)["base"] == "transf":
+                world.put(st["to"], u)
+            elif not isinstance(u, str):
+                v = mk_violation(st, "L5-same-kind", "transf", f"indexing a TransformationCollection with "
+                                 f"{st['idx']} gave {type(u).__name__}: {u if isinstance(u, BaseException) else ''}")
         elif op == "identity":
             u = _call(ctx, stats, lambda: TR.identity(st["dim"], tuple(st["shape"]) if st["shape"] else None))
             if isinstance(u, Tensor):
@@ -778,7 +829,7 @@ def law(st, S, ctx, stats) -> dict | None:
 
 
 def new_stats():
-    return {"steps": 0, "lines": 0, "applications": {}, "laws": {}, "rep_invariants": 0, "both_raised": 0,
+    return {"steps": 0, "lines": 0, "applications": {}, "laws": {}, "ops": {}, "rep_invariants": 0, "both_raised": 0,
             "max_projective_defect": 0.0}
 
 
